@@ -7,6 +7,7 @@ import (
 	"path/filepath"
 	"strings"
 
+	blocks "github.com/ipfs/go-block-format"
 	"github.com/ipfs/go-cid"
 	"github.com/ipld/go-car/v2/blockstore"
 	"github.com/ipld/go-car/v2/storage"
@@ -20,11 +21,38 @@ type C12Case struct {
 	Opts   drv.Opts `json:"opts"`
 	Prefix []string `json:"prefix"`
 	Depth  int      `json:"depth"`
-	Ops    []string `json:"ops,omitempty"`   // replay: exactly this sequence (then Finalize)
-	Probe  string   `json:"probe,omitempty"` // replay: mismatch probe on the image after Ops
+	Ops    []string `json:"ops,omitempty"`    // replay: exactly this sequence (then Finalize)
+	Probe  string   `json:"probe,omitempty"`  // replay: mismatch probe on the image after Ops
+	Base   string   `json:"base,omitempty"`   // root set the file is created with ("" = ab)
+	OpsSet string   `json:"opsset,omitempty"` // "" = c12Ops, "shapes" = c12ShapeOps
 }
 
 var c12Ops = []string{"put:a", "put:b", "D", "F", "put:a'", "put:i"}
+
+// c12ShapeOps: section shapes the rescan has to step over (2- and 3-byte length prefix, empty data, CIDv0) and a batch
+var c12ShapeOps = []string{"put:L128", "put:e", "D", "F", "put:a0", "many:a,b", "put:L16384"}
+
+func c12OpsOf(cs C12Case) []string {
+	if cs.OpsSet == "shapes" {
+		return c12ShapeOps
+	}
+	return c12Ops
+}
+
+func (cs C12Case) base() []string {
+	if cs.Base == "" {
+		return kit.RootSets["ab"]
+	}
+	return kit.RootSets[cs.Base]
+}
+
+func c12Cids(names []string) []cid.Cid {
+	out := []cid.Cid{}
+	for _, n := range names {
+		out = append(out, kit.B(n).Cid)
+	}
+	return out
+}
 
 // session is one open writable store over a file.
 type c12Session struct {
@@ -33,10 +61,33 @@ type c12Session struct {
 	bs    *blockstore.ReadWrite
 	st    *storage.StorageCar
 	f     *os.File
+	owned bool // the session closes f
 }
 
-func c12Open(front, path string, roots []cid.Cid, o drv.Opts, resume bool) (*c12Session, error) {
+// c12Open opens a session. Front "bsf" is blockstore.OpenReadWriteFile over a caller-owned handle: when h is
+// non-nil the SAME handle is used again (a caller that keeps its *os.File across sessions).
+func c12Open(front, path string, roots []cid.Cid, o drv.Opts, resume bool, h *os.File) (*c12Session, error) {
 	s := &c12Session{front: front, path: path}
+	if front == "bsf" {
+		f := h
+		if f == nil {
+			var err error
+			f, err = os.OpenFile(path, os.O_RDWR|os.O_CREATE, 0o644)
+			if err != nil {
+				return nil, err
+			}
+			s.owned = true
+		}
+		bs, err := blockstore.OpenReadWriteFile(f, roots, o.List()...)
+		if err != nil {
+			if s.owned {
+				f.Close()
+			}
+			return nil, err
+		}
+		s.bs, s.f = bs, f
+		return s, nil
+	}
 	if front == "bs" {
 		bs, err := blockstore.OpenReadWrite(path, roots, o.List()...)
 		if err != nil {
@@ -59,8 +110,35 @@ func c12Open(front, path string, roots []cid.Cid, o drv.Opts, resume bool) (*c12
 		f.Close()
 		return nil, err
 	}
-	s.st, s.f = st, f
+	s.st, s.f, s.owned = st, f, true
 	return s, nil
+}
+
+func (s *c12Session) Get(b kit.Blk) ([]byte, error) {
+	if s.bs != nil {
+		blk, err := s.bs.Get(drv.Ctx, b.Cid)
+		if err != nil {
+			return nil, err
+		}
+		return blk.RawData(), nil
+	}
+	return s.st.Get(drv.Ctx, b.Cid.KeyString())
+}
+
+func (s *c12Session) PutMany(bs []kit.Blk) error {
+	if s.bs != nil {
+		var l []blocks.Block
+		for _, b := range bs {
+			l = append(l, b.Block())
+		}
+		return s.bs.PutMany(drv.Ctx, l)
+	}
+	for _, b := range bs {
+		if err := s.st.Put(drv.Ctx, b.Cid.KeyString(), b.Data); err != nil {
+			return err
+		}
+	}
+	return nil
 }
 
 func (s *c12Session) Put(b kit.Blk) error {
@@ -71,7 +149,11 @@ func (s *c12Session) Put(b kit.Blk) error {
 }
 func (s *c12Session) Finalize() error {
 	if s.bs != nil {
-		return s.bs.Finalize()
+		err := s.bs.Finalize()
+		if s.owned {
+			s.f.Close()
+		}
+		return err
 	}
 	err := s.st.Finalize()
 	s.f.Close()
@@ -80,93 +162,206 @@ func (s *c12Session) Finalize() error {
 func (s *c12Session) Discard() {
 	if s.bs != nil {
 		s.bs.Discard()
+		if s.owned {
+			s.f.Close()
+		}
 		return
 	}
 	s.f.Close()
 }
 
-func c12Probes(o drv.Opts) map[string]func() ([]cid.Cid, drv.Opts) {
-	a, b := kit.B("a").Cid, kit.B("b").Cid
-	base := []cid.Cid{a, b}
+func c12Probes(o drv.Opts, baseNames []string) map[string]func() ([]cid.Cid, drv.Opts) {
+	base := c12Cids(baseNames)
+	in := func(n string) bool {
+		for _, b := range baseNames {
+			if b == n {
+				return true
+			}
+		}
+		return false
+	}
+	fresh := "c"
+	for _, n := range []string{"c", "e", "k", "t"} {
+		if !in(n) {
+			fresh = n
+			break
+		}
+	}
+	with := func(i int, n string) []cid.Cid {
+		r := append([]cid.Cid{}, base...)
+		r[i] = kit.B(n).Cid
+		return r
+	}
 	p := map[string]func() ([]cid.Cid, drv.Opts){
-		"other-root":  func() ([]cid.Cid, drv.Opts) { return []cid.Cid{a, kit.B("c").Cid}, o },
-		"extra-root":  func() ([]cid.Cid, drv.Opts) { return append(append([]cid.Cid{}, base...), kit.B("c").Cid), o },
-		"fewer-roots": func() ([]cid.Cid, drv.Opts) { return []cid.Cid{a}, o },
-		"no-roots":    func() ([]cid.Cid, drv.Opts) { return []cid.Cid{}, o },
+		"extra-root": func() ([]cid.Cid, drv.Opts) { return append(append([]cid.Cid{}, base...), kit.B(fresh).Cid), o },
 		"wrong-version": func() ([]cid.Cid, drv.Opts) {
 			o2 := o
 			o2.V1 = !o.V1
 			return base, o2
 		},
 	}
-	if !o.V1 {
-		p["padding-plus"] = func() ([]cid.Cid, drv.Opts) {
-			o2 := o
-			o2.DataPad = o.DataPad + 1
-			return base, o2
+	last := len(base) - 1
+	if len(base) >= 1 {
+		p["other-root"] = func() ([]cid.Cid, drv.Opts) { return with(last, fresh), o }
+		p["fewer-roots"] = func() ([]cid.Cid, drv.Opts) { return append([]cid.Cid{}, base[:last]...), o }
+	}
+	if len(base) >= 2 {
+		p["no-roots"] = func() ([]cid.Cid, drv.Opts) { return []cid.Cid{}, o }
+		if !base[0].Equals(base[last]) {
+			// a list of the same length all of whose members occur in the file's list, with one repeated
+			p["dup-root"] = func() ([]cid.Cid, drv.Opts) { return with(last, baseNames[0]), o }
+		} else {
+			// the file repeats a root; the given list has the same length and contains every root of the file
+			p["undup-root"] = func() ([]cid.Cid, drv.Opts) { return with(last, fresh), o }
 		}
-		if o.DataPad > 0 {
-			p["padding-zero"] = func() ([]cid.Cid, drv.Opts) {
+	}
+	for i, n := range baseNames {
+		if n == "a" {
+			i := i
+			// same digest: other codec, other CID version
+			p["codec-root"] = func() ([]cid.Cid, drv.Opts) { return with(i, "a'"), o }
+			p["cidv0-root"] = func() ([]cid.Cid, drv.Opts) { return with(i, "a0"), o }
+			break
+		}
+	}
+	if !o.V1 {
+		pad := func(d uint64) func() ([]cid.Cid, drv.Opts) {
+			return func() ([]cid.Cid, drv.Opts) {
 				o2 := o
-				o2.DataPad = 0
+				o2.DataPad = d
 				return base, o2
 			}
+		}
+		p["padding-plus"] = pad(o.DataPad + 1)
+		p["padding-plus8"] = pad(o.DataPad + 8)
+		p["padding-plus64"] = pad(o.DataPad + 64)
+		if o.DataPad > 0 {
+			p["padding-zero"] = pad(0)
+		}
+		if o.DataPad > 1 {
+			p["padding-minus"] = pad(o.DataPad - 1)
 		}
 	}
 	return p
 }
 
-var c12ProbeOrder = []string{"other-root", "extra-root", "fewer-roots", "no-roots", "wrong-version", "padding-plus", "padding-zero"}
+var c12ProbeOrder = []string{"other-root", "extra-root", "fewer-roots", "no-roots", "dup-root", "undup-root", "codec-root", "cidv0-root", "wrong-version", "padding-plus", "padding-plus8", "padding-plus64", "padding-minus", "padding-zero"}
 
-// c12Run executes ops (+ final Finalize) with interruptions and returns the final bytes.
-// probeSeen de-duplicates mismatch probes per distinct file image.
-func c12Run(x *kit.Ctx, cs C12Case, ops []string, probeSeen map[string]bool, onlyProbe string) {
+// c12Perm returns the k-th rearrangement of the roots used on reopen (a permutation is not a mismatch).
+func c12Perm(r []cid.Cid, k int) []cid.Cid {
+	out := append([]cid.Cid{}, r...)
+	if len(out) < 2 {
+		if len(out) == 0 && k%2 == 1 {
+			return nil // no roots, spelled as a nil slice
+		}
+		return out
+	}
+	switch k % 3 {
+	case 1: // reversed
+		for i, j := 0, len(out)-1; i < j; i, j = i+1, j-1 {
+			out[i], out[j] = out[j], out[i]
+		}
+	case 2: // rotated
+		out = append(out[1:], out[0])
+	}
+	return out
+}
+
+// c12Memo is shared by all sequences of one case (same front end, options and roots).
+type c12Memo struct {
+	probeSeen map[string]bool
+	want      map[string][]byte // puts so far -> bytes of the uninterrupted session
+}
+
+// c12Run executes ops (+ final Finalize) with interruptions and compares with uninterrupted sessions.
+// memo de-duplicates mismatch probes per distinct file image and caches the uninterrupted sessions.
+func c12Run(x *kit.Ctx, cs C12Case, ops []string, memo *c12Memo, onlyProbe string) {
 	ops = append([]string{}, ops...) // the caller's slice is reused by the enumeration
-	roots := []cid.Cid{kit.B("a").Cid, kit.B("b").Cid}
-	permuted := []cid.Cid{kit.B("b").Cid, kit.B("a").Cid}
+	if memo == nil {
+		memo = &c12Memo{want: map[string][]byte{}}
+	}
+	baseNames := cs.base()
+	roots := c12Cids(baseNames)
 	path := filepath.Join(x.Dir, "c12.car")
 	ppath := filepath.Join(x.Dir, "c12-probe.car")
 	os.Remove(path)
 	defer os.Remove(path)
 	defer os.Remove(ppath)
-	rc := C12Case{Front: cs.Front, Opts: cs.Opts, Ops: ops}
+	rc := C12Case{Front: cs.Front, Opts: cs.Opts, Ops: ops, Base: cs.Base, OpsSet: cs.OpsSet}
 	x.Eval(1)
-	s, err := c12Open(cs.Front, path, roots, cs.Opts, false)
+	// the caller-owned handle of front "bsf" lives as long as the whole history
+	var h *os.File
+	if cs.Front == "bsf" {
+		var err error
+		h, err = os.OpenFile(path, os.O_RDWR|os.O_CREATE, 0o644)
+		if err != nil {
+			panic(err)
+		}
+		defer h.Close()
+	}
+	s, err := c12Open(cs.Front, path, roots, cs.Opts, false, h)
 	if err != nil {
 		x.FailCase(rc, "c12:open:"+cs.Front, "cannot create store: %v", err)
 		return
 	}
 	var puts []string
+	// uninterrupted(puts): the bytes a session that is never interrupted writes for the same puts
+	uninterrupted := func(puts []string) []byte {
+		k := strings.Join(puts, ",")
+		if w, ok := memo.want[k]; ok {
+			return w
+		}
+		upath := filepath.Join(x.Dir, "c12-uninterrupted.car")
+		os.Remove(upath)
+		defer os.Remove(upath)
+		ufront := cs.Front
+		u, err := c12Open(ufront, upath, roots, cs.Opts, false, nil)
+		if err != nil {
+			panic(err)
+		}
+		for _, n := range puts {
+			if err := u.Put(kit.B(n)); err != nil {
+				panic(err)
+			}
+		}
+		if err := u.Finalize(); err != nil {
+			panic(err)
+		}
+		w, _ := os.ReadFile(upath)
+		memo.want[k] = w
+		return w
+	}
 	reopenCount := 0
 	probe := func(step int) {
 		img, _ := os.ReadFile(path)
 		k := string(img)
-		if probeSeen != nil {
-			if probeSeen[k] {
+		if memo.probeSeen != nil {
+			if memo.probeSeen[k] {
 				return
 			}
-			probeSeen[k] = true
+			memo.probeSeen[k] = true
 		}
+		probes := c12Probes(cs.Opts, baseNames)
 		for _, name := range c12ProbeOrder {
-			mk, ok := c12Probes(cs.Opts)[name]
+			mk, ok := probes[name]
 			if !ok || (onlyProbe != "" && onlyProbe != name) {
 				continue
 			}
 			r2, o2 := mk()
 			os.WriteFile(ppath, img, 0o644)
-			s2, err := c12Open(cs.Front, ppath, r2, o2, true)
+			s2, err := c12Open(cs.Front, ppath, r2, o2, true, nil)
 			x.Eval(1)
 			x.Transition(1)
 			after, _ := os.ReadFile(ppath)
-			prc := C12Case{Front: cs.Front, Opts: cs.Opts, Ops: ops[:step], Probe: name}
+			prc := C12Case{Front: cs.Front, Opts: cs.Opts, Ops: ops[:step], Probe: name, Base: cs.Base, OpsSet: cs.OpsSet}
 			if err == nil {
 				s2.Discard()
-				x.FailCase(prc, "c12:mismatch-accepted:"+name+":"+cs.Front, "reopening after %v with mismatch '%s' succeeded", ops[:step], name)
+				x.FailCase(prc, "c12:mismatch-accepted:"+name+":"+cs.Front, "reopening a file with roots %v after %v with mismatch '%s' succeeded", baseNames, ops[:step], name)
 			}
 			if !bytes.Equal(after, img) {
 				x.FailCase(prc, "c12:mismatch-touched:"+name+":"+cs.Front, "refused reopen (mismatch '%s', err %v) changed the file: %d -> %d bytes", name, err, len(img), len(after))
 			}
-			x.Nontrivial(fmt.Sprintf("probe|%s|%+v|%s|%x", cs.Front, cs.Opts, name, img))
+			x.Nontrivial(fmt.Sprintf("probe|%s|%+v|%s|%s|%x", cs.Front, cs.Opts, cs.Base, name, img))
 		}
 	}
 	for i, op := range ops {
@@ -180,25 +375,50 @@ func c12Run(x *kit.Ctx, cs C12Case, ops []string, probeSeen map[string]bool, onl
 				return
 			}
 			puts = append(puts, n)
+		case strings.HasPrefix(op, "many:"):
+			ns := strings.Split(strings.TrimPrefix(op, "many:"), ",")
+			if err := s.PutMany(kit.Bs(ns)); err != nil {
+				x.FailCase(rc, "c12:put-error:"+cs.Front, "PutMany(%v) after %v failed: %v", ns, ops[:i], err)
+				s.Discard()
+				return
+			}
+			puts = append(puts, ns...)
 		case op == "D" || op == "F":
 			if op == "D" {
 				s.Discard()
-			} else if err := s.Finalize(); err != nil {
-				x.FailCase(rc, "c12:finalize-error:"+cs.Front, "Finalize after %v failed: %v", ops[:i], err)
-				return
+			} else {
+				if err := s.Finalize(); err != nil {
+					x.FailCase(rc, "c12:finalize-error:"+cs.Front, "Finalize after %v failed: %v", ops[:i], err)
+					return
+				}
+				// every finalized intermediate image is already the uninterrupted session's file for the puts so far
+				img, _ := os.ReadFile(path)
+				if want := uninterrupted(puts); !bytes.Equal(img, want) {
+					x.FailCase(rc, "c12:intermediate-bytes-differ:"+cs.Front, "after %v the finalized file (%d bytes) differs from the uninterrupted session's (%d bytes): %x vs %x", ops[:i+1], len(img), len(want), clip(img), clip(want))
+					return
+				}
 			}
 			probe(i + 1)
-			// reopen with the same roots (alternately permuted: a permutation is not a mismatch)
-			r := roots
-			if reopenCount%2 == 1 {
-				r = permuted
-			}
+			// reopen with the same roots, rearranged (a permutation is not a mismatch)
+			r := c12Perm(roots, reopenCount)
 			reopenCount++
-			s, err = c12Open(cs.Front, path, r, cs.Opts, true)
+			s, err = c12Open(cs.Front, path, r, cs.Opts, true, h)
 			if err != nil {
 				x.FailCase(rc, "c12:reopen-refused:"+op+":"+cs.Front, "reopening with the same roots and options after %v failed: %v", ops[:i+1], err)
 				return
 			}
+		}
+	}
+	// the resumed session serves every block put so far, with its bytes
+	for _, n := range puts {
+		b := kit.B(n)
+		if b.Cid.Prefix().MhType == 0 && !cs.Opts.StoreID {
+			continue
+		}
+		d, err := s.Get(b)
+		if err != nil || !bytes.Equal(d, b.Data) {
+			x.FailCase(rc, "c12:resumed-get:"+cs.Front, "after %v the session does not return block %s (err %v, %d bytes)", ops, n, err, len(d))
+			break
 		}
 	}
 	if err := s.Finalize(); err != nil {
@@ -206,30 +426,14 @@ func c12Run(x *kit.Ctx, cs C12Case, ops []string, probeSeen map[string]bool, onl
 		return
 	}
 	got, _ := os.ReadFile(path)
-	// the uninterrupted session with the same puts
-	upath := filepath.Join(x.Dir, "c12-uninterrupted.car")
-	os.Remove(upath)
-	defer os.Remove(upath)
-	u, err := c12Open(cs.Front, upath, roots, cs.Opts, false)
-	if err != nil {
-		panic(err)
-	}
-	for _, n := range puts {
-		if err := u.Put(kit.B(n)); err != nil {
-			panic(err)
-		}
-	}
-	if err := u.Finalize(); err != nil {
-		panic(err)
-	}
-	want, _ := os.ReadFile(upath)
+	want := uninterrupted(puts)
 	if !bytes.Equal(got, want) {
 		x.FailCase(rc, "c12:bytes-differ:"+cs.Front, "after %v + Finalize the file (%d bytes) differs from the uninterrupted session's (%d bytes): %x vs %x", ops, len(got), len(want), clip(got), clip(want))
 	}
-	x.State(fmt.Sprintf("%s|%+v|%x", cs.Front, cs.Opts, got))
+	x.State(fmt.Sprintf("%s|%+v|%s|%x", cs.Front, cs.Opts, cs.Base, got))
 	x.Outcome(fmt.Sprintf("reopens=%d", reopenCount))
 	if reopenCount > 0 && len(puts) > 0 {
-		x.Nontrivial(fmt.Sprintf("%s|%+v|%v", cs.Front, cs.Opts, ops))
+		x.Nontrivial(fmt.Sprintf("%s|%+v|%s|%v", cs.Front, cs.Opts, cs.Base, ops))
 	}
 }
 
@@ -245,16 +449,20 @@ func runC12(c any, x *kit.Ctx) {
 		}
 		return
 	}
-	seen := map[string]bool{}
+	memo := &c12Memo{probeSeen: map[string]bool{}, want: map[string][]byte{}}
+	opsSet := c12OpsOf(cs)
 	var rec func(cur []string)
 	rec = func(cur []string) {
 		if len(cur) == cs.Depth {
-			c12Run(x, cs, cur, seen, "")
+			c12Run(x, cs, cur, memo, "")
 			return
 		}
-		for _, op := range c12Ops {
+		for _, op := range opsSet {
 			if op == "put:i" && !cs.Opts.StoreID {
 				continue
+			}
+			if op == "put:L16384" && cs.Depth < 6 {
+				continue // thorough tier only
 			}
 			rec(append(cur, op))
 		}
@@ -262,28 +470,60 @@ func runC12(c any, x *kit.Ctx) {
 	if len(cs.Prefix) < cs.Depth {
 		rec(append([]string{}, cs.Prefix...))
 	} else {
-		c12Run(x, cs, cs.Prefix, seen, "")
+		c12Run(x, cs, cs.Prefix, memo, "")
 	}
 }
+
+var c12Cfgs = []drv.Opts{
+	{}, {DataPad: 3, IndexPad: 2, Codec: "sorted"}, {V1: true}, {StoreID: true}, {AllowDup: true, DataPad: 1}, {Whole: true}, {V1: true, StoreID: true, AllowDup: true},
+}
+
+// further option configurations, explored one level less deep
+var c12MoreCfgs = []drv.Opts{
+	{ZeroEOF: true}, {V1: true, DataPad: 3}, {Whole: true, AllowDup: true}, {Whole: true, StoreID: true}, {IndexPad: 5}, {Codec: "mh", DataPad: 1413}, {ZeroEOF: true, IndexPad: 4, StoreID: true},
+}
+
+var c12Fronts = []string{"bs", "st", "bsf"}
+var c12Bases = []string{"aa", "a", "empty", "r4"}
 
 func genC12(tier string, emit func(any)) {
 	depth := 6
 	if tier == "thorough" {
 		depth = 7
 	}
-	cfgs := []drv.Opts{
-		{}, {DataPad: 3, IndexPad: 2, Codec: "sorted"}, {V1: true}, {StoreID: true}, {AllowDup: true, DataPad: 1}, {Whole: true}, {V1: true, StoreID: true, AllowDup: true},
-	}
-	for _, front := range []string{"bs", "st"} {
-		for _, o := range cfgs {
-			for _, a := range c12Ops {
-				for _, b := range c12Ops {
-					if (a == "put:i" || b == "put:i") && !o.StoreID {
-						continue
-					}
-					emit(C12Case{Front: front, Opts: o, Prefix: []string{a, b}, Depth: depth})
+	family := func(front string, o drv.Opts, depth int, base, opsSet string) {
+		ops := c12Ops
+		if opsSet == "shapes" {
+			ops = c12ShapeOps
+		}
+		for _, a := range ops {
+			for _, b := range ops {
+				if (a == "put:i" || b == "put:i") && !o.StoreID {
+					continue
 				}
+				if (a == "put:L16384" || b == "put:L16384") && depth < 6 {
+					continue
+				}
+				emit(C12Case{Front: front, Opts: o, Prefix: []string{a, b}, Depth: depth, Base: base, OpsSet: opsSet})
 			}
+		}
+	}
+	for _, front := range c12Fronts {
+		for _, o := range c12Cfgs {
+			family(front, o, depth, "", "")
+		}
+		for _, o := range c12MoreCfgs {
+			family(front, o, depth-1, "", "")
+		}
+		// other root sets in the file (duplicate, single, none, four: 2-byte header length prefix)
+		for _, base := range c12Bases {
+			for _, o := range []drv.Opts{{}, {V1: true}, {DataPad: 3, IndexPad: 2, Codec: "sorted"}} {
+				family(front, o, depth-2, base, "")
+			}
+		}
+		// section shapes and batches
+		for _, o := range []drv.Opts{{}, {V1: true}, {Whole: true}, {DataPad: 3, IndexPad: 2, Codec: "sorted"}} {
+			family(front, o, depth-1, "", "shapes")
 		}
 	}
 }
@@ -294,14 +534,16 @@ func init() {
 		Gen:    genC12,
 		Run:    runC12,
 		Decode: kit.DecodeAs[C12Case],
-		Rule: "every sequence of the depth bound over {Put a, Put b, Put a', Put identity, Discard+reopen, Finalize+reopen} followed by Finalize, x 7 option configurations x {blockstore.OpenReadWrite, storage.OpenReadableWritable}; differential oracle: bytes of the uninterrupted session with the same puts; " +
-			"on every distinct intermediate file image every single-field mismatch (other/extra/fewer/no roots, wrong version, data padding +1 / to 0) is tried on a copy and must be refused leaving the bytes unchanged; reopen roots alternate between the original order and a permutation; non-trivial = sequence with >=1 reopen and >=1 put, or a mismatch probe on a distinct image",
+		Rule: "every sequence of the depth bound over {Put a, Put b, Put a', Put identity, Discard+reopen, Finalize+reopen} followed by Finalize, x 7 option configurations (7 more one level less deep) x {blockstore.OpenReadWrite, storage.OpenReadableWritable, blockstore.OpenReadWriteFile over ONE caller-owned handle kept across all sessions}; " +
+			"the same over section shapes {128-byte and 16 KiB sections, empty data, CIDv0, PutMany batch} and over files created with root sets {a,a}, {a}, {}, {a,b,c,s}; differential oracle: bytes of the uninterrupted session with the same puts, after the final Finalize AND after every intermediate Finalize; every block put is read back from the resumed session; " +
+			"on every distinct intermediate file image every single-field mismatch (other/extra/fewer/no roots, a repeated root for a distinct one and vice versa, same digest under another codec / as CIDv0, wrong version, data padding +1/+8/+64/-1/to 0) is tried on a copy and must be refused leaving the bytes unchanged; reopen roots cycle through original order, reversed, rotated (nil for no roots); non-trivial = sequence with >=1 reopen and >=1 put, or a mismatch probe on a distinct image",
 		Bound: func(tier string) map[string]any {
+			d := 6
 			if tier == "thorough" {
-				return map[string]any{"depth": 7, "ops": 6, "configurations": 7, "front_ends": 2}
+				d = 7
 			}
-			return map[string]any{"depth": 6, "ops": 6, "configurations": 7, "front_ends": 2}
+			return map[string]any{"depth": d, "depth_more_cfgs_and_shapes": d - 1, "depth_other_root_sets": d - 2, "ops": 6, "shape_ops": len(c12ShapeOps), "configurations": len(c12Cfgs) + len(c12MoreCfgs), "front_ends": len(c12Fronts), "root_sets": 1 + len(c12Bases)}
 		},
-		Assumptions: []string{"the uninterrupted session is the reference (its well-formedness is C05)"},
+		Assumptions: []string{"the uninterrupted session is the reference (its well-formedness is C05)", "read limits below the session's own header/section sizes are not configured"},
 	})
 }
